@@ -111,7 +111,10 @@ func fileExists(name string) (bool, error) {
 }
 
 func (o *Options) populateGlobals(c *cli.Context) error {
-	if !c.IsSet("no-database") && (c.IsSet("database") || o.GlobalConfig.DbFileName == "") {
+	if c.IsSet("no-database") {
+		// no recipe book: an empty file name stands for an empty book (see utils.WithFileReaders)
+		o.GlobalConfig.DbFileName = ""
+	} else if c.IsSet("database") || o.GlobalConfig.DbFileName == "" {
 		o.GlobalConfig.DbFileName = c.String("database")
 	}
 
